@@ -181,3 +181,21 @@ func TraceEnd()                        {}
 func UFStr(fn string, s string) string { return fn + "(" + s + ")" }
 func BytesToToken(b []byte) string     { return string(b) }
 func Note(s string)                    {}
+
+// BytesEqual compares two byte slices (one solver term, no branching).
+func BytesEqual(a, b []byte) bool {
+	if len(a) != len(b) {
+		return false
+	}
+	for i := range a {
+		if a[i] != b[i] {
+			return false
+		}
+	}
+	return true
+}
+
+// And / Or / Implies combine conditions without introducing control flow (no path fork in the engine).
+func And(a, b bool) bool     { return a && b }
+func Or(a, b bool) bool      { return a || b }
+func Implies(a, b bool) bool { return !a || b }
